@@ -89,9 +89,6 @@ def float_checks(ck, rng, nr, crys, ops, replay, stats):
         e = float(np.abs(np.asarray(a, dtype=float) - np.asarray(b, dtype=float)).max()) if np.size(a) else 0.0
         stats["maxerr"] = max(stats["maxerr"], e)
         if not e <= FTOL * scale: fails.append("%s (err %.3g)" % (what, e))
-    def same(a, b, what):
-        if not (np.array_equal(np.asarray(a[0]), np.asarray(b[0])) and tuple(a[1]) == tuple(b[1]) if isinstance(a[1], tuple)
-                else np.array_equal(np.asarray(a[0]), np.asarray(b[0]))): fails.append(what)
     glist = [o["g"] for o in ops]
     for rep in range(3):
         g = rng.choice(glist); g2 = rng.choice(glist); gi = g.inv(); g12 = g * g2
